@@ -50,12 +50,42 @@ pub struct Ctx {
 }
 
 impl Ctx {
+    /// The exploration budget is wall time.  For the checks whose enumeration is sized to finish well
+    /// inside it on this machine ($VERIF_CPU_BUDGET, set by the orchestrator), a process that has been
+    /// starved of CPU - the machine is running many checks at once - keeps going past the wall budget
+    /// until it has used 70 % of the budget in CPU time (its own threads and its waited-for
+    /// children), at most three times the wall budget: the same work is done on a slow day, and a cap
+    /// that is hit is still reported.
     pub fn out_of_time(&self) -> bool {
-        self.started.elapsed() >= self.budget
+        let wall = self.started.elapsed();
+        if wall < self.budget {
+            return false;
+        }
+        static CPU_AWARE: std::sync::OnceLock<bool> = std::sync::OnceLock::new();
+        if !*CPU_AWARE.get_or_init(|| std::env::var("VERIF_CPU_BUDGET").is_ok()) {
+            return true;
+        }
+        wall >= self.budget * 3 || cpu_seconds() >= 0.7 * self.budget.as_secs_f64()
     }
     pub fn mine(&self, index: u64) -> bool {
         (index % self.shards as u64) as usize == self.shard
     }
+}
+
+/// CPU seconds used so far by this process (all threads) and by the children it has waited for
+pub fn cpu_seconds() -> f64 {
+    unsafe extern "C" {
+        fn getrusage(who: i32, usage: *mut [i64; 18]) -> i32;
+    }
+    let mut total = 0.0;
+    for who in [0i32, -1] {
+        let mut buf = [0i64; 18];
+        if unsafe { getrusage(who, &mut buf) } == 0 {
+            // ru_utime, ru_stime: two timevals (seconds, microseconds)
+            total += buf[0] as f64 + buf[1] as f64 / 1e6 + buf[2] as f64 + buf[3] as f64 / 1e6;
+        }
+    }
+    total
 }
 
 pub fn fp<T: Hash>(t: &T) -> u64 {
